@@ -159,6 +159,15 @@ func Sub(a, b *Term) *Term {
 	if a == b {
 		return Int64C(0)
 	}
+	// (x + y) - x = y
+	if a.Op == "+" && len(a.Args) == 2 {
+		if a.Args[0] == b {
+			return a.Args[1]
+		}
+		if a.Args[1] == b {
+			return a.Args[0]
+		}
+	}
 	return mk("-", SInt, a, b)
 }
 
